@@ -27,8 +27,11 @@ DoConfigure(e) == Need(e.exit = 0, "ConfigureSucceeds", e.exit) /\ UNCHANGED <<s
 ArOf(P(_)) == { ArName(n) : n \in { m \in Duals(script) : \E o \in Objs(script) : o[1] = m /\ P(o) } }
 ObjHitByFile(o, f, mode) == \/ ObjReadsFile(script, o, f) \/ (o[2].t # "" /\ ReadsFile(script, o[2].t, f, mode))
                             \/ (\E h \in TargetsOf(Decl(script, o[1]).ins) \cup CDeps(script, o) : ReadsFile(script, h, f, mode))
-AlwaysDown(mode) == UNION { DownTarget(script, a, mode) : a \in Always(script) }
-                    \cup ArOf(LAMBDA o : \E a \in Always(script) : ObjReadsTarget(script, o, a))
+\* (what the script merely declares for it - libs= - it MAY follow as well, like a static library)
+ArMay(S) == { ArName(n) : n \in Duals(script) \cap S }
+AlwaysDown(mode) == LET D == UNION { DownTarget(script, a, mode) : a \in Always(script) } IN
+                    D \cup ArOf(LAMBDA o : \E a \in Always(script) : ObjReadsTarget(script, o, a))
+                      \cup (IF mode = "may" THEN ArMay(D) ELSE {})
 DoBuild(e) ==
   LET nmust == (NeededMust(script, e.goal) \cap Acts(script)) \cup ArNeeded(script, e.goal)
       nmay == (Needed(script, e.goal) \cap Acts(script)) \cup ArNeeded(script, e.goal)
@@ -53,7 +56,7 @@ DoTouch(e) ==
        THEN /\ must' = must \cup ((DownFile(script, e.f, "must") \cap Acts(script)) \ SymCopies(script))
                             \cup ArOf(LAMBDA o : ObjHitByFile(o, e.f, "must"))
             /\ may' = may \cup (DownFile(script, e.f, "may") \cap Acts(script))
-                          \cup ArOf(LAMBDA o : ObjHitByFile(o, e.f, "may"))
+                          \cup ArOf(LAMBDA o : ObjHitByFile(o, e.f, "may")) \cup ArMay(DownFile(script, e.f, "may"))
             \* objects compiled from the file (or from a header it is included by), and objects compiled
             \* from a generated source whose generating step is downstream of the file
             /\ omust' = omust \cup { o \in Objs(script) : ObjReadsFile(script, o, e.f) \/ (o[2].t # "" /\ ReadsFile(script, o[2].t, e.f, "must"))
@@ -64,7 +67,7 @@ DoTouch(e) ==
             /\ must' = must \cup (((DownTarget(script, e.t, "must") \ {e.t}) \cap Acts(script)) \ SymCopies(script))
                             \cup ArOf(LAMBDA o : ObjReadsTarget(script, o, e.t))
             /\ may' = may \cup ((DownTarget(script, e.t, "may") \ {e.t}) \cap Acts(script))
-                          \cup ArOf(LAMBDA o : ObjReadsTarget(script, o, e.t))
+                          \cup ArOf(LAMBDA o : ObjReadsTarget(script, o, e.t)) \cup ArMay(DownTarget(script, e.t, "may") \ {e.t})
             /\ omust' = omust \cup { o \in Objs(script) : ObjReadsTarget(script, o, e.t) }
             /\ omay' = omay \cup { o \in Objs(script) : ObjReadsTarget(script, o, e.t) }
   /\ UNCHANGED script
